@@ -126,3 +126,14 @@ Proof.
   destruct (try_from_iter_ok sp md Hhc R Rnew Rset Rget w' Vs Hw' Hnd Hlast Hfit) as [sv [H [Hb Hok]]].
   exists sv. split; [exact Hb|]. split; [apply (sv_ok_present _ _ _ _ _ _ _ Hok)|apply (sv_ok_iters _ _ _ _ _ _ _ Hok)].
 Qed.
+
+Theorem sparse_try_from_iter_rejects sp md w' Vs :
+  1 <= w' <= 63 -> nondecreasing Vs = false ->
+  (forall v, last_opt Vs = Some v -> v + 1 < 2 ^ 64) ->
+  let n := match last_opt Vs with Some v => v + 1 | None => 0 end in
+  lenN Vs + buckets_of n (eff_width w' n (lenN Vs)) < 2 ^ 64 ->
+  exists e, sv_try_from_iter sp md w' Vs = Ok (inr e).
+Proof.
+  intros Hw' Hnd Hlast n Hfit. destruct low_contract_holds as [R [Rnew [Rset Rget]]].
+  apply (try_from_iter_rejects sp md R Rnew Rset Rget w' Vs Hw' Hnd Hlast Hfit).
+Qed.
